@@ -366,3 +366,119 @@ LEVEL_TEXT = LEVEL_TEXT + " m4: the bytes read back from the freezer are decoded
 # ---- extended claim (session 4)
 LEVEL_TEXT = LEVEL_TEXT + ' m2: Freezer::freeze appends the heights from the frozen height up to the threshold contiguously and in order, each with the block fetched for that height, checks every parent hash against the previous tip, stops at the first missing block / stop flag / mismatch, and reports exactly the appended blocks.'
 LEVEL_NOTE = LEVEL_NOTE + ' Freeze loop: up to 3 heights per call.'
+
+
+def m5_wipe_out(S):
+    """`Shared::wipe_out_frozen_data` -- what leaves the key-value store after a successful freeze: for every frozen main-chain block only its BODY is deleted (under its own
+    number and hash; the header stays), every OTHER block recorded at a frozen height (a side-chain block, found through the number->hash rows of that height) is deleted
+    completely with the number and transaction count of its own row, and nothing else is deleted; the body deletions are written (synced) before the side-chain deletions
+    (one frozen block whose height holds the main block and two side-chain blocks; two frozen blocks with one side block; errors of the batch are returned)"""
+    from mir2smt import symmap as SM
+    from mir2smt.session_extra import extra_session
+    ob = "C10.m5"
+    f = [x for x in S.prog.funcs if x.kind == "fn" and x.short == "wipe_out_frozen_data" and "shared/src/shared.rs" in x.name and "{closure" not in x.name]
+    if len(f) != 1:
+        raise Inconclusive(f"wipe_out_frozen_data: {len(f)} candidates")
+    scenarios = [("one_frozen_two_side", [("m0", 10)], {10: ["m0", "s0", "s1"]}), ("two_frozen_one_side", [("m0", 10), ("m1", 11)], {10: ["m0"], 11: ["s2", "m1"]}), ("nothing_frozen", [], {})]
+    for name, frozen, rows in scenarios:
+        ctx = S.ctx(unwind=12)
+        ctx.uninterpreted_unknown_calls = True
+        ctx.prune_with_solver = True
+        ctx.max_paths = 4000
+        stopped = ctx.bool("freezer_was_stopped")
+        allh = sorted({h for hs in rows.values() for h in hs} | {h for h, _ in frozen})
+        for i_ in range(len(allh)):
+            for j_ in range(i_):
+                ctx.add_side(T.ne(ctx.int("id!" + allh[i_], "u64").t, ctx.int("id!" + allh[j_], "u64").t))     # different blocks, different hashes
+
+        def nmv(ex, v):
+            v = deref(ex, v)
+            if isinstance(v, IntV):
+                return v.t if isinstance(v.t, int) else (v.t[2] if isinstance(v.t, tuple) and v.t[0] == "var" else str(v.t))
+            if isinstance(v, AggV):
+                return tuple(nmv(ex, x) for x in v.fields)
+            return getattr(v, "name", None) or type(v).__name__
+
+        def rec(tag, okname=None):
+            def h(ex, c, a, d):
+                ex.log.append(("c10w", tag, [nmv(ex, x) for x in a[1:]], list(ex.pc)))
+                return mk_result(ex.ctx.bool(okname).t if okname else True, UNIT, OpaqueV("db_error", "Error"), d)
+            return h
+
+        def get_iter(ex, c, a, d):
+            mode = deref(ex, a[2])
+            # IteratorMode::From(prefix, Forward): prefix = bytes of the packed number
+            pref = None
+            for sub in (mode.payloads[0][1] if isinstance(mode, EnumV) and mode.payloads else (mode.fields if isinstance(mode, AggV) else ())):
+                n_ = nmv(ex, sub)
+                if isinstance(n_, str) and n_.startswith("bytes(u64:"):
+                    pref = int(n_[len("bytes(u64:"):-1])
+            if pref is None:
+                raise Stop(f"get_iter with an unknown prefix {str(mode)[:120]}")
+            ex.log.append(("c10w", "scan", [pref], list(ex.pc)))
+            return E._owned([AggV((OpaqueV(f"k{pref}x{h_}", "Box<[u8]>"), OpaqueV(f"txcount({h_})", "Box<[u8]>")), "(Box<[u8]>, Box<[u8]>)") for h_ in rows.get(pref, [])]
+                            + [AggV((OpaqueV(f"k{pref + 1}xother", "Box<[u8]>"), OpaqueV("txcount(other)", "Box<[u8]>")), "(Box<[u8]>, Box<[u8]>)")])
+
+        def starts_with(ex, c, a, d):
+            k, p_ = nmv(ex, a[0]), nmv(ex, a[1])
+            if os.environ.get("VERIF_DEBUG"):
+                print("DEBUG starts_with", k, p_)
+            m_ = re.match(r"k(\d+)x", str(k))
+            return BoolV(bool(m_) and p_ == f"bytes(u64:{m_.group(1)})")
+        keyparts = lambda n_: re.match(r"reader\(k(\d+)x([A-Za-z0-9]+)", n_)
+        ctx.env = list(E.LOGGING_OFF) + [
+            (E.rx(r"ChainDB::new_write_batch$"), lambda ex, c, a, d: OpaqueV("batch", d)),
+            (E.rx(r"StoreWriteBatch::delete_block_body$"), rec("delete_body", "batch_ok")),
+            (E.rx(r"StoreWriteBatch::delete_block$"), rec("delete_block", "batch_ok")),
+            (E.rx(r"StoreWriteBatch::clear$"), rec("clear")),
+            (E.rx(r"ChainDB::write_sync$"), rec("write_sync", "write_ok")),
+            (E.rx(r"ChainDB::write$"), rec("write", "write_ok")),
+            (E.rx(r"Shared::compact_block_body$"), lambda ex, c, a, d: (ex.log.append(("c10w", "compact", [], list(ex.pc))), UNIT)[1]),
+            (E.rx(r"<&u64 as Into<Uint64>>::into$"), lambda ex, c, a, d: OpaqueV("u64:" + str(nmv(ex, a[0])), d)),
+            (E.rx(r"<&Uint64 as Into<u64>>::into$"), lambda ex, c, a, d: IntV(int(re.match(r"numfield\((\d+)\)", nmv(ex, a[0])).group(1)), "u64")),
+            (E.rx(r"Uint64 as (ckb_types::prelude::)?Entity>::as_slice$"), lambda ex, c, a, d: OpaqueV("bytes(" + nmv(ex, a[0]) + ")", d)),
+            (E.rx(r"ChainStore>::get_iter$"), get_iter),
+            (E.rx(r"<impl \[u8\]>::starts_with$|<\[u8\]>::starts_with$"), starts_with),
+            (E.rx(r"as AsRef<\[u8\]>>::as_ref$|as Deref>::deref$"), lambda ex, c, a, d: OpaqueV(nmv(ex, a[0]), d)),
+            (E.rx(r"NumberHashReader<'_> as .*FromSliceShouldBeOk<'_>>::from_slice_should_be_ok$"), lambda ex, c, a, d: OpaqueV("reader(" + nmv(ex, a[0]) + ")", d)),
+            (E.rx(r"NumberHashReader::<'_>::block_hash$"), lambda ex, c, a, d: OpaqueV(keyparts(nmv(ex, a[0])).group(2), d)),
+            (E.rx(r"NumberHashReader::<'_>::number$"), lambda ex, c, a, d: OpaqueV("numfield(" + keyparts(nmv(ex, a[0])).group(1) + ")", d)),
+            (E.rx(r"Reader<'_>>::to_entity$"), lambda ex, c, a, d: OpaqueV(nmv(ex, a[0]), d)),
+            (E.rx(r"Uint32Reader<'_> as .*FromSliceShouldBeOk<'_>>::from_slice_should_be_ok$"), lambda ex, c, a, d: OpaqueV(nmv(ex, a[0]), d)),
+            (E.rx(r"<Uint32Reader<'_> as Into<u32>>::into$"), lambda ex, c, a, d: ex.ctx.int(re.sub(r"[^A-Za-z0-9]", "_", nmv(ex, a[0])), "u32")),
+            (E.rx(r"<&Byte32 as PartialEq>::ne$"), lambda ex, c, a, d: BoolV(T.ne(SM.key_term(ex, deref(ex, a[0])), SM.key_term(ex, deref(ex, a[1]))))),
+            (E.rx(r" as Iterator>::(min|max)$"), lambda ex, c, a, d: mk_option(True, ex.ctx.ref_to(OpaqueV(c.split("::")[-1] + "_key", "Byte32")), d)),
+        ] + SM.handlers(r"Byte32") + SM.EXTRAS + list(E.LIST_ADAPTORS)
+        fr = SM.MapV(tuple((ctx.int("id!" + h_, "u64").t, ctx.ref_to(AggV((IntV(n_, "u64"), ctx.int("txs_" + h_, "u32")), "(u64, u32)")), OpaqueV(h_, "Byte32")) for h_, n_ in frozen), "BTreeMap<Byte32, (u64, u32)>")
+        ps = S.run(ctx, f[0], [ctx.ref_to(OpaqueV("shared", "Shared")), ctx.ref_to(OpaqueV("snapshot", "Snapshot")), fr, stopped])
+        S.prove(ctx, ob, f"{name}_no_panic", [], T.not_(cond_of(panics(ps))))
+        side = [(h_, n_) for n_, hs in rows.items() for h_ in hs if h_ not in dict(frozen)]
+        goals = []
+        for p in returns(ps):
+            evs = [(e[1], e[2]) for e in p.log if e[0] == "c10w"]
+            bodies = [a_ for t, a_ in evs if t == "delete_body"]
+            blocks = [a_ for t, a_ in evs if t == "delete_block"]
+            v = p.value
+            is_ok = isinstance(v, EnumV) and v.disc == 0
+            ok = True
+            want_bodies = [[n_, h_, "txs_" + h_] for h_, n_ in frozen]
+            want_blocks = sorted([n_, h_, "txcount_" + h_ + "_"] for h_, n_ in side)
+            if is_ok:
+                ok = ok and sorted(bodies) == sorted(want_bodies) and sorted(blocks) == want_blocks
+                tags = [t for t, _ in evs]
+                if frozen:
+                    ok = ok and "write_sync" in tags and (not blocks or tags.index("write_sync") < tags.index("delete_block"))
+                if blocks:
+                    ok = ok and "write" in tags and tags.index("write") > max(i for i, t in enumerate(tags) if t == "delete_block")
+            else:
+                # an error: only deletions from the expected sets were queued so far
+                ok = ok and all(b_ in want_bodies for b_ in bodies) and all(b_ in want_blocks for b_ in blocks)
+            if os.environ.get("VERIF_DEBUG") and not ok:
+                print("DEBUG wipe", is_ok, bodies, blocks, want_bodies, want_blocks, [t for t, _ in evs])
+            goals.append(T.implies(p.cond(), bool(ok)))
+        S.prove(ctx, ob, f"{name}_frozen_blocks_lose_only_their_bodies_side_blocks_of_those_heights_are_deleted_whole_nothing_else", [], T.and_(*goals) if goals else False)
+        okret = T.or_(*[p.cond() for p in returns(ps) if isinstance(p.value, EnumV) and p.value.disc == 0])
+        S.prove(ctx, ob, f"{name}_succeeds_iff_every_batch_operation_and_write_succeeds", [], T.iff(okret, T.and_(ctx.bool("batch_ok").t, ctx.bool("write_ok").t)) if frozen else okret)
+
+
+OBLIGATIONS = OBLIGATIONS + [m5_wipe_out]
